@@ -19,6 +19,7 @@ from __future__ import annotations
 
 import itertools
 import math
+import os
 import random
 import warnings
 
@@ -267,6 +268,7 @@ class C11(Prop):
     assumptions = [
         "NumPy has a convention for datetime64/timedelta64 only for min/max/first/last/count/mean/median without dtype=/fill_value (other datetime cells are observed for plan-independence and truthfulness only)",
         "a positive min_count on nansum/nanprod without fill_value is documented to act as fill_value=NaN",
+        "arg-reductions with a floating dtype= are refused by groupby_reduce (ValueError) and by the model alike",
         "ValueError / NotImplementedError / DTypePromotionError are documented refusals; any other exception in a cell where another engine or plan returns is reported as a failure",
         "mode/nanmode cannot run in this environment (SciPy API change, ValueError on every call): table-level only",
     ]
@@ -303,7 +305,7 @@ class C11(Prop):
 
     # ---- running ------------------------------------------------------------------------------
     def run(self, rng, tier, rep: Report, search=False):
-        self.run_cases(self.cases(rng, tier, search), rep, workers=4 if tier == "thorough" else 1)
+        self.run_cases(self.cases(rng, tier, search), rep, workers=int(os.environ.get("VERIF_WORKERS", "4")) if tier == "thorough" else 1)
 
     def run_cases(self, cases, rep: Report, workers=1):
         if workers > 1 and len(cases) > 2000:
@@ -400,6 +402,9 @@ class C11(Prop):
                         rep.direct.append((c, f"dtype depends on the plan: {o['dtype']} here, {ref[1]['dtype']} with "
                                               f"engine={ref[0]['engine']} plan={ref[0]['plan']} absent={ref[0]['absent']}"))
                         break
+            if not oks and lst and all(o["err"] in REFUSALS for _, o in lst):
+                # nobody returns: a uniform refusal (visible in the evidence; the model says whether it expects it)
+                rep.dist["cell-refused-by-every-observation:" + "+".join(sorted({o["err"] for _, o in lst}))] += 1
             crashes = [(c, o) for c, o in lst if o["kind"] == "err" and o["err"] not in REFUSALS]
             if crashes and not in_domain(crashes[0][0]):
                 rep.dist["crash-outside-domain:" + crashes[0][1]["err"]] += len(crashes)
